@@ -1,4 +1,4 @@
-PROFILE = {"weights": [1, 1, 4, 6, 1, 0, 3, 1, 0, 0], "act": {"tick": 16, "connect": 2, "feed": 8, "peer_close": 0.5, "peer_reset": 0.5, "frag": 4}}
+PROFILE = {"weights": [1, 1, 4, 6, 1, 0, 3, 1, 0, 0], "act": {"tick": 16, "connect": 2, "feed": 8, "peer_close": 0.5, "peer_reset": 0.5, "frag": 4, "stall": 1}}
 ASSUME = ["timer checks happen at least every wakeup seconds: 'at the next timer check' is judged with wakeup+1 s of slack; same-second events are unordered",
           "no capabilities-exchange messages are sent on a connection after its exchange succeeded (outside C11's alphabet)"]
 
@@ -16,7 +16,11 @@ def plans(tier):
 def enum_plans(tier):
     th = tier == "thorough"
     # every history over {tick, CER, DWA, DWR}: watchdog timing at every offset, node-level and per-peer timers
+    from .c09_plan import _cer
     return [dict(cfg="A", depth=9 if th else 8, maxtime=9 if th else 8, alpha=["cerok", "dwa"], maxconn=1),
+            # the peer stops reading (and sending) with output still queued for it: the watchdog still runs its course
+            dict(cfg="A", depth=11 if th else 9, maxtime=9 if th else 8, alpha=["stall", "req1"], maxconn=1,
+                 prefix=[{"a": "connect"}, {"a": "feed", "c": 1, "ms": [_cer("p1.r1")]}]),
             dict(cfg="B", depth=8 if th else 7, maxtime=8 if th else 7, alpha=["ceaok", "dwa"], maxconn=1),
             # a message arriving in two network reads with silence in between: bytes count as traffic
             dict(cfg="A", depth=8 if th else 7, maxtime=7 if th else 6, alpha=["cerok", "frag"], maxconn=1)]
